@@ -40,6 +40,20 @@ static void check_sequence(const char* what, const std::string& label, const ipr
       for (auto r = s.end(); r != s.begin() and backp <= n + 2;) { r--; ++backp; }
       out("Iterator::backwards", label + ":" + what, back == n and backp == n, "visited=" + std::to_string(back) + "/" + std::to_string(backp));
    }
+   // iterators into DIFFERENT sequences are different, whatever their positions (== compares the sequence and the index)
+   static std::vector<const ipr::Sequence<T>*> earlier;
+   bool apart = true;
+   std::size_t pairs = 0;
+   for (auto other : earlier) {
+      if (other == &s) continue;
+      ++pairs;
+      auto m = std::min(n, other->size());
+      for (std::size_t i : { std::size_t(0), m / 2, m })
+         apart = apart and not (s.position(i) == other->position(i)) and (s.position(i) != other->position(i));
+      apart = apart and (s.begin() != other->begin()) and not (s.begin() == other->begin());
+   }
+   if (pairs > 0) out("Iterator::==(other_sequence)", label + ":" + what, apart, "pairs=" + std::to_string(pairs));
+   if (earlier.size() < 6 and std::find(earlier.begin(), earlier.end(), &s) == earlier.end()) earlier.push_back(&s);
 }
 
 int main()
